@@ -271,9 +271,14 @@ type crResult struct {
 
 // crRunCrash executes the history in dir, crashing the last operation at the given cut.
 func crRunCrash(t *testing.T, dir string, h crHistory, sqs crSquares, cut crCut, cacheSize int) (r crResult, err error) {
-	st, err := NewStore(&Parameters{RecentBlocksCacheSize: cacheSize}, dir)
-	if err != nil {
-		return r, fmt.Errorf("harness: NewStore: %w", err)
+	last0 := h.Ops[len(h.Ops)-1]
+	var st *Store
+	if last0.Kind != "firstopen" {
+		// "firstopen": the crashed operation is the very first NewStore on an empty directory
+		st, err = NewStore(&Parameters{RecentBlocksCacheSize: cacheSize}, dir)
+		if err != nil {
+			return r, fmt.Errorf("harness: NewStore: %w", err)
+		}
 	}
 	for _, op := range h.Ops[:len(h.Ops)-1] {
 		if err := crApply(st, op, sqs); err != nil {
@@ -299,6 +304,11 @@ func crRunCrash(t *testing.T, dir string, h crHistory, sqs crSquares, cut crCut,
 				sess.TearMod, sess.TearRem = 512, cut.AlignRem
 			}
 			close(started)
+			if last.Kind == "firstopen" {
+				_, e := NewStore(&Parameters{RecentBlocksCacheSize: cacheSize}, dir)
+				done <- e
+				return
+			}
 			done <- crApply(st, last, sqs)
 		}()
 		<-started
@@ -526,6 +536,7 @@ func crHistories(tier string) []crHistory {
 		{"remove-empty", []crOp{{"putq4", 7, "empty"}, {"remove", 7, "empty"}}},
 		{"putq4-w16", []crOp{{"putq4", 7, "w16"}}},
 		{"reopen-with-empty-and-block", []crOp{{"putq4", 7, "empty"}, {"putq4", 8, "w2tail"}, {"reopen", 7, "empty"}}},
+		{"first-start", []crOp{{"firstopen", 7, "empty"}}},
 	}
 	if tier == "thorough" {
 		hs = append(hs,
